@@ -210,3 +210,14 @@ package x509
 //@ nobody
 //@ ensures [errors-are-fatal-class] err != nil ==> typeof(err) != NonFatalErrors && typeof(err) != *Errors
 //@ note trusted: the getValues closure returns asn1 / errors.New / fmt.Errorf errors only
+
+// Certificate lists: each certificate is decoded like a single one — strict first, and on failure
+// the lax retry runs on the same remaining input into the same target, the strict error being kept
+// as a non-fatal one.
+//@ func ParseCertificates
+//@ props C11
+//@ arith int
+//@ may panic
+//@ site asn1.Unmarshal#1 as um
+//@ site UnmarshalWithParams#1 as lax
+//@ at lax assert [lax-retry-on-the-same-remaining-input-and-target] lax.b == before(um, asn1Data) && lax.params == "lax" && lax.val == um.val
